@@ -405,8 +405,8 @@ def run(report, index, tier):
     from .litlang import literal_rule
     from . import c04, c05
     literal_rule(report, index, M, 'R06.5')
-    c04.rules(report, index)
-    c05.rules(report, index)
+    c04.rules(report, index, tier)
+    c05.rules(report, index, tier)
     report.not_decided += [
         'identifier / punctuator segmentation (C06 R06.2, R06.3)',
         'early errors (out of the property)']
